@@ -112,6 +112,11 @@ Sync ==
         \* the stored shares and the signature are compared through their observable view; they are never adopted
         /\ ("signed" \in Checked) => Signed = ToSet(s.signed)
         /\ ("sig" \in Checked) => SigView(sig) = [present |-> s.sig.present, valid |-> s.sig.valid]
+        \* the announced assignment of a live attempt is the one the public inputs determine (Fresh of TssAlgebra.tla):
+        \* every member's binding factor is the oracle's answer for ITS member id, message and commitment list, its
+        \* public nonce is D_i + rho_i * E_i and the group nonce is their sum - recomputed by the driver from the stored
+        \* committee with the member ids, not from the positions in the list
+        /\ ("asg" \in Checked /\ "asgOK" \in DOMAIN s) => s.asgOK
     /\ UNCHANGED <<gvars, expH, dn, en, rho, pubN, gR, ch, chl, hon, orc, prev, ps, sig, out, wasBad>>
 
 TraceNext == Act \/ Sync
